@@ -528,6 +528,9 @@ where
         match self.session.local_state() {
             SessionState::Unmapped => {}
             SessionState::BeginSent | SessionState::BeginReceived | SessionState::Mapped => {
+                // An end that carries an error puts the session into the discarding state:
+                // whatever else the peer had in flight is dropped until its End arrives
+                let discard_other_frames = error.is_some();
                 self.session
                     .send_end(&self.outgoing, error)
                     .await
@@ -536,7 +539,7 @@ where
                             self.session.connection_stop_reason(),
                         ))
                     })?;
-                let (channel, end) = self.wait_for_remote_end(false).await?;
+                let (channel, end) = self.wait_for_remote_end(discard_other_frames).await?;
                 self.session.on_incoming_end(channel, end)?;
             }
             SessionState::EndSent => {
